@@ -122,7 +122,8 @@ Print Assumptions done_only_after_every_import.
    prefixes and the widths of the length fields that enter the size estimate) *)
 Theorem gen_consts_expected :
   max_proof_depth = 128 /\ proof_depth_guard_is_gt = true /\ split_iters = 10 /\
-  seq_continue_is_lt = true /\ par_break_is_ge_and_lastleaf = true /\ chunk_proof_version = 0 /\
+  seq_continue_is_lt = true /\ par_break_is_ge_and_lastleaf = true /\
+  seq_err_checked_after_loop = true /\ seq_err_checked_after_peek = true /\ chunk_proof_version = 0 /\
   (prefix_leaf, prefix_internal, prefix_nil) = (0, 1, 2) /\ depth_size = 2 /\ value_length_size = 4.
 Proof. exact Main.gen_consts_expected_l. Qed.
 Print Assumptions gen_consts_expected.
@@ -351,24 +352,23 @@ Print Assumptions served_chunk_is_written_chunk_without_truncate_refuted.
 
 (* ---- read errors during creation (the sequential chunker) ---- *)
 (* the walk over a node database whose reads can fail: [ok j] = the reads that
-   reach key number j succeed.  When the error is looked at both inside the loop
-   and when the next offset is peeked, a creation that reports success produced
-   exactly the fault-free chunks, which cover the tree *)
+   reach key number j succeed.  THE CODE (whether it looks at it.Err() after
+   the loop and after the peek of the next offset is read from the source by
+   the generator): a creation that reports success produced exactly the
+   fault-free chunks, which cover the tree *)
 Theorem create_success_covers : forall ok size t runs,
-  seq_create true true ok size t = Some runs -> runs = seq_runs size t /\ concat runs = contents t.
-Proof. exact create_success_covers_l. Qed.
+  seq_create_code ok size t = Some runs -> runs = seq_runs size t /\ concat runs = contents t.
+Proof. exact create_success_covers_code_l. Qed.
 Print Assumptions create_success_covers.
 
-(* THE CODE does not look at the error of the it.Next() that peeks the next
-   offset (chunk.go:117-120): for it the statement is refuted -- a creation
-   that reports success but covers only a prefix of the keys (known finding
-   C12:seq-chunker-swallows-read-error-when-peeking-next-offset) *)
-Theorem create_success_covers_code_refuted :
-  exists ok size t runs, wf t /\ seq_create_code ok size t = Some runs /\ concat runs <> contents t.
-Proof. exact create_success_covers_code_refuted_l. Qed.
-Print Assumptions create_success_covers_code_refuted.
+(* both checks are needed.  Without the check after the peek (the defect
+   repaired by 1164f42) ... *)
+Theorem create_success_covers_without_peek_check_refuted :
+  exists ok size t runs, wf t /\ seq_create true false ok size t = Some runs /\ concat runs <> contents t.
+Proof. exact create_success_covers_without_peek_check_refuted_l. Qed.
+Print Assumptions create_success_covers_without_peek_check_refuted.
 
-(* ... and so it is for the variant that also drops the error inside the loop *)
+(* ... and without the check after the loop *)
 Theorem create_success_covers_without_loop_check_refuted :
   exists ok size t runs, wf t /\ seq_create false false ok size t = Some runs /\ concat runs <> contents t.
 Proof. exact create_success_covers_without_loop_check_refuted_l. Qed.
